@@ -51,8 +51,8 @@ where
     type_aliases: FnvHashMap<(Atom, SyntaxContext), TsType>,
     /// runtime types (`String` / `Number`) of the members of the enums declared in the module
     enums: FnvHashMap<(Atom, SyntaxContext), Vec<Atom>>,
-    /// names bound by import declarations: nothing is known about the types behind them
-    imported_names: FnvHashMap<(Atom, SyntaxContext), ()>,
+    /// classes declared in the module: their instances are objects
+    classes: FnvHashMap<(Atom, SyntaxContext), ()>,
     type_decls_collected: bool,
     type_resolution_depth: std::cell::Cell<usize>,
 
@@ -83,7 +83,7 @@ where
             interfaces: Default::default(),
             type_aliases: Default::default(),
             enums: Default::default(),
-            imported_names: Default::default(),
+            classes: Default::default(),
             type_decls_collected: false,
             type_resolution_depth: Default::default(),
 
@@ -1345,7 +1345,7 @@ where
                 interfaces: &mut self.interfaces,
                 type_aliases: &mut self.type_aliases,
                 enums: &mut self.enums,
-                imported_names: &mut self.imported_names,
+                classes: &mut self.classes,
             });
             self.type_decls_collected = true;
         }
@@ -1864,7 +1864,7 @@ struct TypeDeclCollector<'a> {
     interfaces: &'a mut FnvHashMap<(Atom, SyntaxContext), TsInterfaceDecl>,
     type_aliases: &'a mut FnvHashMap<(Atom, SyntaxContext), TsType>,
     enums: &'a mut FnvHashMap<(Atom, SyntaxContext), Vec<Atom>>,
-    imported_names: &'a mut FnvHashMap<(Atom, SyntaxContext), ()>,
+    classes: &'a mut FnvHashMap<(Atom, SyntaxContext), ()>,
 }
 
 impl Visit for TypeDeclCollector<'_> {
@@ -1911,16 +1911,10 @@ impl Visit for TypeDeclCollector<'_> {
             .insert((ts_enum_decl.id.sym.clone(), ts_enum_decl.id.ctxt), types);
     }
 
-    fn visit_import_decl(&mut self, import_decl: &ImportDecl) {
-        for specifier in &import_decl.specifiers {
-            let local = match specifier {
-                ImportSpecifier::Named(ImportNamedSpecifier { local, .. })
-                | ImportSpecifier::Default(ImportDefaultSpecifier { local, .. })
-                | ImportSpecifier::Namespace(ImportStarAsSpecifier { local, .. }) => local,
-            };
-            self.imported_names
-                .insert((local.sym.clone(), local.ctxt), ());
-        }
+    fn visit_class_decl(&mut self, class_decl: &ClassDecl) {
+        class_decl.visit_children_with(self);
+        self.classes
+            .insert((class_decl.ident.sym.clone(), class_decl.ident.ctxt), ());
     }
 }
 
